@@ -207,6 +207,7 @@ type replayFile struct {
 	Decisions []interp.Decision `json:"decisions"`
 	Notes     []string          `json:"notes,omitempty"`
 	Native    string            `json:"native_replay"`
+	NativeHarness string        `json:"native_harness,omitempty"`
 }
 
 func writeReplay(prop *Property, run Run, v interp.Violation) (string, *replayFile) {
@@ -214,6 +215,18 @@ func writeReplay(prop *Property, run Run, v interp.Violation) (string, *replayFi
 		Property: prop.ID, Pkg: run.Pkg, Harness: run.Harness, Kind: v.Kind, Msg: v.Msg, Tag: v.Tag, Where: v.Where,
 		Values: v.Values, InputSeq: v.InputSeq, Inputs: v.Inputs, Params: run.Params, Decisions: v.Decisions, Notes: v.Notes,
 		Strs: map[string]string{},
+	}
+	if v.ReplayHarness != "" {
+		rf.NativeHarness = v.ReplayHarness
+	}
+	if v.ReplayParams != nil {
+		rf.Params = map[string]int64{}
+		for k, x := range run.Params {
+			rf.Params[k] = x
+		}
+		for k, x := range v.ReplayParams {
+			rf.Params[k] = x
+		}
 	}
 	for name, val := range v.Inputs {
 		if strings.HasSuffix(name, "_str") && strings.HasPrefix(val, "\"") {
@@ -252,7 +265,7 @@ func nativeReplay(prop *Property, rf *replayFile, path string, replace map[strin
 	}
 	cmd := exec.Command("go", "test", "-tags", tags, "-vet=off", "-count=1", "-timeout", "120s", "-overlay", ovPath, "-run", "^TestVerifReplay$", "."+rel)
 	cmd.Dir = repoDir
-	cmd.Env = append(os.Environ(), "GOFLAGS=-mod=mod", "GOPROXY=off", "VERIF_REPLAY="+path, "VERIF_HARNESS="+rf.Harness)
+	cmd.Env = append(os.Environ(), "GOFLAGS=-mod=mod", "GOPROXY=off", "VERIF_REPLAY="+path, "VERIF_HARNESS="+nativeHarnessOf(rf))
 	out, _ := cmd.CombinedOutput()
 	s := string(out)
 	if len(s) > 6000 {
@@ -292,7 +305,7 @@ func main() {
 	tier := fs.String("tier", "", "quick|thorough")
 	replay := fs.String("replay", "", "replay file")
 	workers := fs.Int("workers", 0, "worker count (default: cores)")
-	solver := fs.String("solver", "z3", "solver binary")
+	solver := fs.String("solver", "z3-new", "solver binary")
 	pkg := fs.String("pkg", "", "dev: harness package import path")
 	dir := fs.String("dir", "", "dev: harness dir(s) relative to repo, comma separated")
 	fn := fs.String("fn", "", "dev: harness function")
@@ -625,6 +638,13 @@ func runProperty(prop *Property, tier, replayPath string, workers int, solver st
 	}
 	fmt.Printf("[%s] held on everything explored (%d paths, %d obligations, %.1fs)\n", prop.ID, totalPaths, totalObl, time.Since(t0).Seconds())
 	return 0
+}
+
+func nativeHarnessOf(rf *replayFile) string {
+	if rf.NativeHarness != "" {
+		return rf.NativeHarness
+	}
+	return rf.Harness
 }
 
 func compactInputs(v interp.Violation) string {
